@@ -52,6 +52,24 @@ Proof.
 Qed.
 Print Assumptions C07_full_step_reversible.
 
+(* ... and for any number of passes (Model/Traj.run): N passes without hop attempt, then the N passes of the reversed problem
+   in reverse order, return position and momentum exactly and the density matrix up to conjugation - the third sentence of
+   the property for the assembled loop *)
+Theorem C07_full_run_reversible :
+  forall n m dt poisson (ds : list (sdata (T:=R))) (s sf s2 : tstate (T:=R)) atts atts2,
+  run ROps n m dt poisson ds s = (sf, atts) -> Forall (fun a => a = None) atts ->
+  run ROps n m dt poisson (rev (map (rd n) ds)) (mkT (px sf) (map Ropp (pv sf)) (mconj n (prho sf)) (pact sf) (ptime sf)) = (s2, atts2) ->
+  Forall (fun a => a = None) atts2 ->
+  Forall (fun mi => mi <> 0) m -> length (px s) = length m -> length (pv s) = length m ->
+  Forall (fun d => fok m (fpair (pact s) d) /\ length (dlam d) = n /\ unitary n (mget ROps (dC d))) ds ->
+  px s2 = px s /\ pv s2 = map Ropp (pv s) /\ pact s2 = pact s
+  /\ meq n (mget ROps (prho s2)) (fconj (mget ROps (prho s))).
+Proof.
+  intros n m dt poisson ds s sf s2 atts atts2 H1 H2 H3 H4 H5 H6 H7 H8.
+  exact (run_reversible n m dt poisson ds s sf s2 atts atts2 H1 H2 H3 H4 H5 H6 H7 H8).
+Qed.
+Print Assumptions C07_full_run_reversible.
+
 (* PARTIAL: "symmetric + consistent one-step map => even order >= 2" (and hence error ratio 4
    when halving dt, for both integrators) is the classical meta-theorem and is NOT mechanised;
    that exp(-i conj(W) dt) is independent of the eigen-decomposition chosen by LAPACK (spectral
